@@ -5,6 +5,7 @@ compound keys; header-only) and runs every grouping operator in every call form 
 strategy (default, buffersize 1 and 2, presorted on key-sorted input) on the real petl code.  Oracle: the
 dictionary-based reference grouping of mc/refs/grouping.py plus the conservation laws.
 """
+import functools
 import itertools
 import operator
 from collections import OrderedDict
@@ -45,6 +46,13 @@ RULE = ('all tables with 0..n rows: kind kv = key over K4 {None, i1, i2, s1} x v
         'sources are an extension beyond petl\'s table contract, exercised only in configurations where the '
         'unchanged code reads its input once, with aggregation functions that read their argument in one pass '
         '(key=None hands over a re-iterable container on which plain list() would call len() first). '
+        'plus kind rg = ragged rows (key in the last column, a row may end before it: its key is None; forms that '
+        'do not project value fields) and kind sq = sequence-valued key cells {(i1,i2), [i1,i2], (i1,), None} (a list '
+        'and a tuple of equal items are ONE key under petl\'s order; hash-based counting forms, '
+        'groupcountdistinctvalues and callable keys excluded); callable keys with presorted=True also for rowreduce, '
+        'fold, groupselectfirst, groupselectlast. '
+        'x strategy: petl.config.sort_buffersize = 1..nrows with NO buffersize argument, kept set while the view is '
+        'built and iterated (kinds vk, ek; thorough also ck, rg, sq); '
         'x strategy: default, buffersize=1, buffersize=2, presorted=True (only on tables whose key column is '
         'already non-decreasing under the reference order). states = (table, form, strategy) points; a table is '
         'non-trivial when it has >= 2 distinct keys and some key occurs more than once. '
@@ -69,7 +77,7 @@ class Kind(object):
     alternative accepted forms (field index, one-element list / tuple, list instead of tuple, compound key
     mixing index and name).  The layout (kidx, vidx, ididx, keyhdr) is what the reference model uses."""
 
-    def __init__(self, name, hdr, kidx, vidx, numeric, base=None, kspell='name', vspell='name'):
+    def __init__(self, name, hdr, kidx, vidx, numeric, base=None, kspell='name', vspell='name', ididx=None):
         self.name = name
         self.base = base or name
         self.hdr = hdr
@@ -78,8 +86,8 @@ class Kind(object):
         self.keyhdr = tuple(hdr[i] for i in self.kidx)
         self.vidx = vidx
         self.vname = hdr[vidx]
-        self.ididx = len(hdr) - 1
-        self.idname = hdr[-1]
+        self.ididx = len(hdr) - 1 if ididx is None else ididx
+        self.idname = hdr[self.ididx]
         self.numeric = numeric
         self.single = nkey == 1
         self.kspell, self.vspell = kspell, vspell
@@ -107,7 +115,12 @@ KINDS = {
     'ek': Kind('ek', ('', 'v', 'id'), [0], 1, True),           # the key field is named '' (a falsy field name)
     'ck': Kind('ck', ('k1', 'k2', 'v', 'id'), [0, 1], 2, True),
     'mv': Kind('mv', ('k', 'v', 'id'), [0], 1, False),
+    # ragged: the key is the LAST column and a row may be too short to hold it (its key is then None)
+    'rg': Kind('rg', ('id', 'v', 'k'), [2], 1, True, ididx=0),
+    # sequence-valued key cells: (i1, i2) and [i1, i2] are ONE key under petl's order (lists and tuples interchangeable)
+    'sq': Kind('sq', ('k', 'v', 'id'), [0], 1, True),
 }
+MISSING_CELL = ('<cell missing>',)      # marker in the 'rg' row alphabet: the row ends before the key column
 
 # alternative spellings of the key / value arguments, on the small kinds (kv2: key is column 0 = index 0,
 # vk: key is column 1, ck: compound key)
@@ -150,7 +163,9 @@ def _alphabets(seed):
             'vk': [(v, k) for k in k3 for v in (i1, i2)],
             'ek': [(k, v) for k in (None, i1) for v in (i1, i2)],
             'ck': [(a, b, v) for a in (None, i1) for b in (None, i1) for v in (i1, i2)],
-            'mv': [(k, v) for k in k3 for v in k3]}
+            'mv': [(k, v) for k in k3 for v in k3],
+            'rg': [(v, k) for k in (None, i1, s1, MISSING_CELL) for v in (i1, i2)],
+            'sq': [(k, v) for k in ((i1, i2), [i1, i2], (i1,), None) for v in (i1, i2)]}
 
 
 _TIER = 'quick'
@@ -167,6 +182,10 @@ def setup(tier, seed):
 
 def _tables(kind, n, lo=0, hi=None):
     rows = spaces.rotate(_ALPHA[KINDS[kind].base], _SEED)
+    if KINDS[kind].base == 'rg':
+        for t in itertools.islice(itertools.product(rows, repeat=n), lo, hi):
+            yield tuple((i, v) if k is MISSING_CELL else (i, v, k) for i, (v, k) in enumerate(t))
+        return
     for t in itertools.islice(itertools.product(rows, repeat=n), lo, hi):
         yield tuple(r + (i,) for i, r in enumerate(t))
 
@@ -205,8 +224,12 @@ def _key01(r):
     return (r[0], r[1])
 
 
+def _key2pad(r):
+    return r[2] if len(r) > 2 else None
+
+
 def _keyfn(K):
-    return {(0,): _key0, (1,): _key1, (0, 1): _key01}[tuple(K.kidx)]
+    return {(0,): _key0, (1,): _key1, (0, 1): _key01, (2,): _key2pad}[tuple(K.kidx)]
 
 
 def _aslist(vals):
@@ -371,6 +394,20 @@ form('fold(add,v)', NUM, 'sorted', 'table',
 form('fold(whole rows)', MAIN, 'sorted', 'table',
      lambda t, K, kw, p: etl.fold(t, K.key, _catrows, **kw),
      lambda h, rows, K, p: (('key', 'value'), rg.fold(rows, K.kidx, _catrows, None)), nkey=1)
+
+form('rowreduce(key=callable)', MAIN, 'presorted-only', 'table',
+     lambda t, K, kw, p: etl.rowreduce(t, _keyfn(K), _red, header=['key', 'n', 'ids'], **kw),
+     lambda h, rows, K, p: (('key', 'n', 'ids'), [_red(k, g) for k, g in rg.groups(rows, keyfn=_keyfn(K))]), nkey=1)
+form('fold(key=callable)', MAIN, 'presorted-only', 'table',
+     lambda t, K, kw, p: etl.fold(t, _keyfn(K), _seq, K.id, **kw),
+     lambda h, rows, K, p: (('key', 'value'), [(k, functools.reduce(_seq, rg.project(g, K.ididx)))
+                                               for k, g in rg.groups(rows, keyfn=_keyfn(K))]), nkey=1)
+form('groupselectfirst(key=callable)', MAIN, 'presorted-only', 'table',
+     lambda t, K, kw, p: etl.groupselectfirst(t, _keyfn(K), **kw),
+     lambda h, rows, K, p: (h, [g[0] for k, g in rg.groups(rows, keyfn=_keyfn(K))]), srcrows=True)
+form('groupselectlast(key=callable)', MAIN, 'presorted-only', 'table',
+     lambda t, K, kw, p: etl.groupselectlast(t, _keyfn(K), **kw),
+     lambda h, rows, K, p: (h, [g[-1] for k, g in rg.groups(rows, keyfn=_keyfn(K))]), srcrows=True)
 
 # --- groupselect* -----------------------------------------------------------------------------------
 form('groupselectfirst', MAIN, 'sorted', 'table',
@@ -562,8 +599,21 @@ def seen_rows(rows, K, operand):
 
 
 def observe(f, t, K, kw, p, operand='tuple'):
+    """Build the view and read it in one pass.  The pseudo argument '_config' = c stands for: NO buffersize
+    argument, petl.config.sort_buffersize = c while the view is built AND while it is iterated."""
     global _CUR_OPERAND
     _CUR_OPERAND = operand
+    saved = etl.config.sort_buffersize
+    try:
+        if '_config' in kw:
+            kw = dict(kw)
+            etl.config.sort_buffersize = kw.pop('_config')
+        return _observe(f, t, K, kw, p, operand)
+    finally:
+        etl.config.sort_buffersize = saved
+
+
+def _observe(f, t, K, kw, p, operand):
     try:
         out = f.run(t if f.rawinput else make_input(t, K, operand), K, kw, p)
         if f.mode == 'counter':
@@ -613,8 +663,22 @@ def hdr_ok(ehdr, ohdr, K):
     return True
 
 
+# ragged rows (only the key cell can be missing): forms that do not project value fields out of the rows
+RG_FORMS = ('groupselectfirst', 'groupselectlast', 'groupselectmin', 'groupselectmax', 'aggregate(len)',
+            'aggregate(list)', 'rowreduce', 'rowgroupmap', 'fold(whole rows)', 'rowgroupby',
+            'aggregate(key=callable,len)', 'rowreduce(key=callable)', 'groupselectfirst(key=callable)',
+            'groupselectlast(key=callable)', 'rowgroupby(callable key)')
+# sequence-valued key cells: hash-based counting cannot take list cells; groupcountdistinctvalues is distinct()
+# (C10's subject); a callable key groups by native ==, for which list != tuple
+SQ_EXCLUDED = ('valuecounts(key)', 'valuecounter(key)', 'groupcountdistinctvalues')
+
+
 def applicable(f, K):
     """Call form x argument spelling combinations that petl accepts (see RULE for the exclusions)."""
+    if K.base == 'rg':
+        return f.name in RG_FORMS
+    if K.base == 'sq':
+        return 'kv' in f.kinds and f.name not in SQ_EXCLUDED and 'callable' not in f.name
     if K.base not in f.kinds:
         return False
     if not K.spelled:
@@ -643,7 +707,7 @@ def judge(f, t, K, kw, p, obs=None, operand='tuple'):
     bad = []
     nkey = f.nkey if f.nkey is not None else len(K.kidx)
     if f.srcrows:
-        keypart = lambda r: tuple(r[i] for i in K.kidx if i < len(r))
+        keypart = lambda r: tuple(r[i] if i < len(r) else None for i in K.kidx)
     else:
         keypart = lambda r: tuple(r[:nkey])
 
@@ -688,11 +752,11 @@ def judge(f, t, K, kw, p, obs=None, operand='tuple'):
                         '%s: not one selected row per distinct key in ascending key order' % f.name))
         else:
             for (k, g, cands), o in zip(egroups, orows):
-                if not any(tuple(r) == o for r in g):
+                if not any(norm(r) == o for r in g):
                     bad.append(('selected row is not a member of its group', shown, got,
                                 '%s: selected a row that is not in the group' % f.name))
                     break
-                if not any(tuple(r) == o for r in cands):
+                if not any(norm(r) == o for r in cands):
                     bad.append(('selected row does not have the extreme value', shown, got,
                                 '%s: selected row is a member but its value is not the minimum/maximum' % f.name))
                     break
@@ -754,11 +818,17 @@ STRATS = [('default', {}), ('buffersize', {'buffersize': 1}), ('buffersize', {'b
 PRESORTED = ('presorted', {'presorted': True})
 
 
-def strategies(f, keysorted, K=None):
+CONFIG_KINDS = {'quick': ('vk', 'ek'), 'thorough': ('vk', 'ek', 'ck', 'rg', 'sq')}
+
+
+def strategies(f, keysorted, K=None, nrows=0):
     if f.strat == 'sorted':
         strats = STRATS
         if K is not None and K.spelled:             # argument-spelling blocks: fewer chunked sorts
             strats = STRATS[:1] if _TIER == 'quick' else STRATS[:2]
+        if K is not None and K.name in CONFIG_KINDS[_TIER] and nrows:
+            # chunk size from petl.config.sort_buffersize (every value 1..nrows), no buffersize argument
+            strats = strats + [('config', {'_config': c}) for c in range(1, nrows + 1)]
         return strats + ([PRESORTED] if keysorted else [])
     if f.strat == 'plain':
         return [('default', {})]
@@ -774,9 +844,11 @@ _SPELL_ROWS = {'quick': {'kv2': 3, 'vk': 2, 'ck': 2}, 'thorough': {'kv2': 3, 'vk
 
 def _plan(tier):
     if tier == 'quick':
-        plan = [('kv', 0, 3), ('vk', 0, 3), ('ck', 0, 3), ('mv', 0, 3), ('kv2', 4, 4), ('ek', 0, 3)]
+        plan = [('kv', 0, 3), ('vk', 0, 3), ('ck', 0, 3), ('mv', 0, 3), ('kv2', 4, 4), ('ek', 0, 3),
+                ('rg', 0, 3), ('sq', 0, 3)]
     else:
-        plan = [('kv', 0, 3), ('kv4', 4, 4), ('vk', 0, 4), ('ck', 0, 4), ('mv', 0, 4), ('kv6', 0, 3), ('ek', 0, 4)]
+        plan = [('kv', 0, 3), ('kv4', 4, 4), ('vk', 0, 4), ('ck', 0, 4), ('mv', 0, 4), ('kv6', 0, 3), ('ek', 0, 4),
+                ('rg', 0, 4), ('sq', 0, 4)]
     # alternative spellings of the key / value arguments (quick: the tied subset, thorough: the full cross)
     for base in ('kv2', 'vk', 'ck'):
         for name, quick in SPELLED[base]:
@@ -824,7 +896,9 @@ def bounds(tier, seed):
             'argument_spellings': {'single key': ['name'] + list(KSPELL_SINGLE),
                                    'compound key': ['name'] + list(KSPELL_COMPOUND), 'value fields': ['name', 'index'],
                                    'strategies on spelled kinds': 'default + presorted (quick), + buffersize=1 (thorough)'},
-            'strategies': ['default', 'buffersize=1', 'buffersize=2', 'presorted=True (key-sorted tables only)'],
+            'strategies': ['default', 'buffersize=1', 'buffersize=2', 'presorted=True (key-sorted tables only)',
+                           'petl.config.sort_buffersize = 1..nrows with no buffersize argument (kinds %s)'
+                           % ', '.join(CONFIG_KINDS[tier])],
             'row_alphabets': {k: [repr(r) for r in v] for k, v in _ALPHA.items()}}
 
 
@@ -935,7 +1009,7 @@ def run_item(item, acc):
             if f.nonempty and not rows:
                 continue
             for p in f.params(n):
-                for sname, kw in strategies(f, ks, K):
+                for sname, kw in strategies(f, ks, K, len(rows)):
                     obs = observe(f, t, K, kw, p)
                     acc.states += 1
                     acc.transitions += 1
@@ -977,7 +1051,7 @@ def replay(case):
 def vacuity(cov, tier):
     c = cov['per_case_counters']
     problems = ['no non-trivial case for ' + name for name in FORMS if not c.get('nt:' + name)]
-    for s in ('default', 'buffersize', 'presorted'):
+    for s in ('default', 'buffersize', 'presorted', 'config'):
         if not c.get('strategy:' + s):
             problems.append('strategy %s never ran' % s)
     fams = sorted(set(family(f) for f in FORMS.values() if f.strat in ('sorted', 'plain')))
